@@ -634,9 +634,151 @@ def run(chk) -> None:
     _r32a(chk)
     _r32b(chk)
     _r32c(chk)
+    chk.rule("R32d", "a templater object (one per Linter, reused for every file) keeps nothing derived from one file: core templater classes store to / mutate self-owned objects only in __init__, also through local aliases")
+    _r32d(chk)
+    chk.rule("R32e", "a keyed memo (`if k in c: v = c[k] else: v = f(..); c[k] = v`) identifies every input of the memoised computation that varies with what the key is derived from")
+    _r32e(chk)
     chk.exhaustive = True
     chk.assumptions.append("CPython ast gives the program's syntax faithfully; the reviewed tables (ARTEFACT_WRITERS, REVIEWED_STATE, REVIEWED_CACHES, REVIEWED_ARG_MUTATIONS in sa/rules/c32.py) were reviewed by hand")
     chk.assumptions.append("calls through values the call graph cannot type are resolved by method name over the whole tree (over-approximation); calls inside lambda bodies and calls made by libraries outside the tree are not followed")
+
+
+def _r32d(chk) -> None:
+    """One templater is created per Linter and process() is called once per file with that file's
+    config.  Writing into an object the templater owns (self.default_context, self.override_context, a
+    memo attribute) from process()/get_context() carries one file's configuration into the next."""
+    repo = chk.repo
+    MUT = ("update", "setdefault", "append", "add", "pop", "popitem", "clear", "extend", "insert", "remove", "__setitem__")
+    n_cls = n_bad = 0
+    for m in repo.iter_modules("src/sqlfluff/core/templaters/"):
+        for qc, c in m.classes():
+            if not any(cc.name == "RawTemplater" for _, cc in repo.mro(m, c)):
+                continue
+            n_cls += 1
+            for item in c.body:
+                if not isinstance(item, FuncNode) or item.name == "__init__":
+                    continue
+                cfg = cfg_of(item)
+
+                def owned(e, at, depth=0) -> Optional[str]:
+                    """`self.<attr>` or a local that is (on some path) a plain alias of it."""
+                    if isinstance(e, ast.Attribute) and isinstance(e.value, ast.Name) and e.value.id == "self":
+                        return f"self.{e.attr}"
+                    if isinstance(e, ast.Name) and depth < 3:
+                        for o in origins(cfg, e, at):
+                            if o.kind == "expr" and not o.path and o.expr is not None:
+                                r = owned(o.expr, o.stmt, depth + 1)
+                                if r:
+                                    return r
+                    return None
+
+                for n in walk_local(item):
+                    hits = []
+                    if isinstance(n, (ast.Assign, ast.AugAssign, ast.AnnAssign)):
+                        tgs = n.targets if isinstance(n, ast.Assign) else [n.target]
+                        for t in tgs:
+                            if isinstance(t, ast.Attribute) and isinstance(t.value, ast.Name) and t.value.id == "self":
+                                hits.append(f"store to self.{t.attr}")
+                            if isinstance(t, ast.Subscript):
+                                o_ = owned(t.value, n)
+                                if o_:
+                                    hits.append(f"item store into {o_}")
+                    if isinstance(n, ast.Call) and isinstance(n.func, ast.Attribute) and n.func.attr in MUT:
+                        o_ = owned(n.func.value, cfg.stmt_of(n) or n)
+                        if o_:
+                            hits.append(f".{n.func.attr}() on {o_}")
+                    for h in hits:
+                        n_bad += 1
+                        chk.fail(
+                            "R32d", n,
+                            f"{c.name}.{item.name}: {h} (`{short(n, 70)}`): the templater object outlives the file, so this file's configuration or text leaks into "
+                            "every later file linted by the same Linter (the result of a file then depends on which files were linted before it)",
+                            detail=f"{c.name}.{item.name}: {h}",
+                        )
+    chk.count("R32d.templater_classes", n_cls)
+    chk.count("R32d.state_writes_outside_init", n_bad)
+    chk.floor("R32d.templater_classes", 4)
+    if not n_bad:
+        chk.ok("R32d", "core templater classes", "no write to templater-owned objects outside __init__")
+
+
+def _r32e(chk) -> None:
+    repo = chk.repo
+    n = 0
+    for m in repo.iter_modules("src/sqlfluff/"):
+        if m.relpath.startswith("src/sqlfluff/utils/testing/"):
+            continue
+        for q, f in m.functions():
+            stores = [(st, t) for st in walk_local(f) if isinstance(st, ast.Assign) for t in st.targets
+                      if isinstance(t, ast.Subscript) and isinstance(t.value, ast.Name) and isinstance(t.slice, ast.Name)]
+            for st, t in stores:
+                cname, kname = t.value.id, t.slice.id
+                reads = [x for x in walk_local(f) if isinstance(x, ast.Subscript) and isinstance(x.ctx, ast.Load) and norm(x.value) == cname and norm(x.slice) == kname]
+                tests = [x for x in walk_local(f) if isinstance(x, ast.Compare) and len(x.ops) == 1 and isinstance(x.ops[0], (ast.In, ast.NotIn))
+                         and norm(x.comparators[0]) == cname and norm(x.left) == kname]
+                if not reads or not tests:
+                    continue
+                n += 1
+                cfg = cfg_of(f)
+                params = {a.arg for a in f.args.args + f.args.kwonlyargs}
+
+                def cone(e, at, depth=0, acc=None):
+                    """expressions a value derives from, through plain locals"""
+                    acc = acc if acc is not None else []
+                    if any(e is y for y in acc) or depth > 6:
+                        return acc
+                    acc.append(e)
+                    for sub in ast.walk(e):
+                        if isinstance(sub, ast.Name) and sub.id not in params:
+                            for o in origins(cfg, sub, at):
+                                if o.kind == "expr" and o.expr is not None:
+                                    cone(o.expr, o.stmt, depth + 1, acc)
+                    return acc
+
+                def paths(exprs):
+                    """(root parameter, access-path text, whole?) for every parameter-rooted chain; whole = the object itself
+                    is used (passed on, id()-ed), not just one named read of it"""
+                    out = set()
+                    for e in exprs:
+                        for sub in ast.walk(e):
+                            if isinstance(sub, (ast.Attribute, ast.Name)):
+                                par = getattr(sub, "_parent", None)
+                                if isinstance(par, ast.Attribute) and par.value is sub:
+                                    continue  # not the top of its chain
+                                r_ = sub
+                                while isinstance(r_, ast.Attribute):
+                                    r_ = r_.value
+                                if not (isinstance(r_, ast.Name) and r_.id in params):
+                                    continue
+                                # `<chain>.get("name")` is a named read; anything else uses the object as a whole
+                                if isinstance(par, ast.Call) and par.func is sub and isinstance(sub, ast.Attribute) and sub.attr in ("get", "get_section") and par.args and isinstance(par.args[0], ast.Constant):
+                                    out.add((r_.id, norm(sub.value) + f".get({par.args[0].value!r})", False))
+                                elif isinstance(par, ast.Call) and par.func is sub:
+                                    out.add((r_.id, norm(sub.value) if isinstance(sub, ast.Attribute) else norm(sub), True))
+                                else:
+                                    out.add((r_.id, norm(sub), True))
+                    return out
+
+                kp = paths(cone(t.slice, st))
+                vp = paths(cone(st.value, st))
+                key_roots = {r for r, _, _ in kp}
+                key_whole = {p_ for _, p_, w in kp if w}
+                key_reads = {p_ for _, p_, w in kp if not w}
+                missing = []
+                for r, p_, w in sorted(vp):
+                    if r not in key_roots:
+                        continue  # does not vary with what the key was derived from (same object for the whole run)
+                    covered = any(p_ == kw or p_.startswith(kw + ".") for kw in key_whole) or (not w and p_ in key_reads)
+                    if not covered:
+                        missing.append(p_)
+                chk.require(
+                    not missing, "R32e", st,
+                    f"{q}: the memo `{cname}` is keyed on {sorted(key_whole | key_reads)} but the stored value also depends on {missing}: two calls that agree on the key "
+                    "and differ there get each other's result (what is reported for a file depends on which files came before it)",
+                    detail=f"{q}: memo key of {cname} covers the inputs of the stored value",
+                )
+    chk.count("R32e.keyed_memos", n)
+    chk.floor("R32e.keyed_memos", 1)
 
 
 from ..selftest import Variant  # noqa: E402
@@ -647,6 +789,24 @@ PLACEHOLDER = "src/sqlfluff/core/templaters/placeholder.py"
 CONFIG_INFO = "src/sqlfluff/core/rules/config_info.py"
 
 VARIANTS: List[Variant] = [
+    Variant(
+        "templater-context-layered-onto-the-default-context", "src/sqlfluff/core/templaters/base.py",
+        "        live_context = {}\n        live_context.update(self.default_context)\n",
+        "        live_context = self.default_context\n",
+        "R32d", "RawTemplater.get_context", "seeded C32-1: context keys of an earlier file stay defined for later files",
+    ),
+    Variant(
+        "parse-noqa-memo-keyed-on-rule-selection-only", "src/sqlfluff/cli/commands.py",
+        "    cache_key = id(parsed_string.config)\n",
+        "    cache_key = (\",\".join(parsed_string.config.get(\"rule_allowlist\") or []), \",\".join(parsed_string.config.get(\"rule_denylist\") or []))\n",
+        "R32e", "_get_filtered_parse_violations", "seeded C32-2: the first file's noqa policy is reused for files with the same rule selection",
+    ),
+    Variant(
+        "quiet-parse-noqa-memo-key-through-local", "src/sqlfluff/cli/commands.py",
+        "    cache_key = id(parsed_string.config)\n",
+        "    file_config = parsed_string.config\n    cache_key = id(file_config)\n",
+        "QUIET", None, "config object through a local before id()",
+    ),
     # ---- behaviour-preserving edits: the check must stay quiet -------------------------
     Variant(
         "quiet-persist-flag-through-a-local", LINTER,
